@@ -279,13 +279,14 @@ func itemsFromFor(
 	var values []any  // The list of values to loop over
 	// Get the list from a matrix
 	if f.Matrix.Len() != 0 {
-		if err := resolveMatrixRefs(f.Matrix, cache); err != nil {
+		matrix, err := resolveMatrixRefs(f.Matrix, cache)
+		if err != nil {
 			return nil, nil, errors.TaskfileInvalidError{
 				URI: location.Taskfile,
 				Err: err,
 			}
 		}
-		return asAnySlice(product(f.Matrix)), nil, nil
+		return asAnySlice(product(matrix)), nil, nil
 	}
 	// Get the list from the explicit for list
 	if len(f.List) > 0 {
@@ -357,22 +358,25 @@ func itemsFromFor(
 	return values, keys, nil
 }
 
-func resolveMatrixRefs(matrix *ast.Matrix, cache *templater.Cache) error {
-	if matrix.Len() == 0 {
-		return nil
-	}
-	for _, row := range matrix.All() {
+// resolveMatrixRefs returns a copy of the matrix in which the rows given as
+// references are resolved against the variables of the current call. The
+// matrix itself belongs to the task definition, which is shared by all
+// (possibly concurrent) calls of the task, so it must not be written to.
+func resolveMatrixRefs(matrix *ast.Matrix, cache *templater.Cache) (*ast.Matrix, error) {
+	resolved := ast.NewMatrix()
+	for key, row := range matrix.All() {
 		if row.Ref != "" {
 			v := templater.ResolveRef(row.Ref, cache)
 			switch value := v.(type) {
 			case []any:
-				row.Value = value
+				row = &ast.MatrixRow{Ref: row.Ref, Value: value}
 			default:
-				return fmt.Errorf("matrix reference %q must resolve to a list", row.Ref)
+				return nil, fmt.Errorf("matrix reference %q must resolve to a list", row.Ref)
 			}
 		}
+		resolved.Set(key, row)
 	}
-	return nil
+	return resolved, nil
 }
 
 // product generates the cartesian product of the input map of slices.
